@@ -16,14 +16,11 @@ type oaChecker struct {
 }
 
 // typeKey: expected compiled name of the type defined for a named schema. For the Go
-// importer the "_" prefix of utils.go getSyslTypeName (names starting with a native type
-// name) applies to types written as "!type" (objects, allOf); aliases are written under
-// their safe name.
+// importer the "_" prefix of utils.go getSyslSafeSchemaName (names starting with a native
+// type name) applies to every schema, whatever it is written as (type, alias, enum), on
+// the definition and on every reference.
 func (x *oaChecker) typeKey(name string) string {
 	if x.d.V == 2 {
-		if t := x.d.schema(name); t != nil && t.K != "obj" && t.K != "allof" {
-			return goFieldKeyNoSuffix(name)
-		}
 		return goTypeKey(name)
 	}
 	return arraiKey(name)
